@@ -25,6 +25,7 @@ import Driver.Parse
 import Driver.EnvDrive
 import Driver.ShapeDrive
 import Driver.MomDrive
+import Driver.FloatDrive
 import Std.Data.HashMap
 import Std.Data.HashSet
 
@@ -402,6 +403,14 @@ partial def loop (inp out : IO.FS.Stream) (st : St) : IO St := do
     loop inp out { st with stats := stats, nHist := st.nHist + 1, nOps := st.nOps + 1,
                            nK := st.nK + (lines.filter (·.startsWith "K ")).length,
                            nA := st.nA + (lines.filter (·.startsWith "A ")).length }
+  | "FO" :: rest =>
+    let st := finishHist st
+    let (lines, tags) := handleFO rest
+    for l in lines do emit out l
+    let mut stats := st.stats
+    for t in tags do stats := bump stats t
+    loop inp out { st with stats := stats, nHist := st.nHist + 1, nOps := st.nOps + 1,
+                           nK := st.nK + (lines.filter (·.startsWith "K ")).length }
   | "MM" :: rest =>
     let st := finishHist st
     let (lines, tags) := handleMom rest
